@@ -406,7 +406,8 @@ theorem SInv.slotKeys_length {w : World} (inv : SInv w) : (w.slots.filterMap (sl
 
 /-! ## the basic steps of the model preserve `SInv` -/
 theorem nextLevel_eq {w : World} {h : Nat} {a : Act} (ha : w.acts[h]? = some a) :
-    w.nextLevel h = ({ w with acts := w.acts.set h { a with last := a.last + 1 }, slots := w.slots ++ [(h, a.last + 1)] },
+    w.nextLevel h = ({ w with acts := w.acts.set h { a with last := a.last + 1 }, slots := w.slots ++ [(h, a.last + 1)],
+                              lastSlot := some (h, a.last + 1) },
       a.level ++ [a.last + 1]) := by
   simp only [World.nextLevel, ha]
 
@@ -487,6 +488,7 @@ theorem sinv_basic (env : Env) : Basic env SPres where
   callDest := sinv_callDest env
   stagePush := fun _ _ h => h
   bufferSet := fun _ _ h => h
+  ghostSlot := fun _ _ _ h => h
   clock := fun _ h => h
   nextLevel := sinv_nextLevel
   freshAction := sinv_freshAction
@@ -504,6 +506,7 @@ theorem sinv_basic (env : Env) : Basic env SPres where
 theorem sinv_basicCfg (env : Env) : BasicCfg env SPres where
   startDelivery := fun _ _ h => h
   extendDests := fun _ _ h => h
+  popPending := fun _ h => h
   removeDest := fun _ _ h => h
   addGlobals := fun _ _ h => h
 
